@@ -252,8 +252,10 @@ def has_kmatrix(case):
 
 def check_case(case, rec):
     text = A.render(to_ast(case))
-    with tempfile.TemporaryDirectory(prefix="c19_") as td:
-        path = Path(td) / "model.txt"
+    from ..harness import workdir
+
+    if True:
+        path = workdir("c19") / "model.txt"  # the same path is converted again and again with new contents
         path.write_text(text)
         cpp, py = convert_both(str(path), py_first=bool(case.get("py_first")))
         # string-returning call == what would be printed
@@ -271,6 +273,21 @@ def check_case(case, rec):
                     diff = [(x, y) for x, y in zip(a, b) if x != y][:3] or [("<length>", f"{len(a)} vs {len(b)} lines")]
                     raise Mismatch("C19:string-vs-printed", f"{fn.__name__}: returned string differs from printed text", diff[0][0], diff[0][1])
     f17, namps = compare_models(cpp, py, True, has_kmatrix(case), "generated")
+    # the outputs must describe *this* input: amplitudes once each in input order, couplings and parameters as written
+    rc_, _ = GR.cpp_model(cpp)
+    want_names = [A.ref_str(a["tree"]) for a in case["amps"]]
+    got_names = [a_["name"] for a_ in rc_["amplitudes"]]
+    if got_names != want_names:
+        raise Mismatch("C19:amplitudes-of-input", "amplitudes of the output are not those of the input file, once each, in input order", want_names, got_names)
+    for a_, c_ in zip(rc_["amplitudes"], case["c"]):
+        want_amp = A.ref_amp(c_, False)
+        if not (math.isclose(a_["re"], want_amp.real, rel_tol=6e-6, abs_tol=1e-6) and math.isclose(a_["im"], want_amp.imag, rel_tol=6e-6, abs_tol=1e-6)):
+            raise Mismatch("C19:coefficient-of-input", f"coefficient of {a_['name']} (printed with 6 significant digits)", [want_amp.real, want_amp.imag], [a_["re"], a_["im"]])
+    by_label = {v["label"]: v for v in rc_["variables"].values()}
+    for e_ in case["extras"]:
+        v = by_label.get(e_["n"])
+        if v is None or not near(v["value"], float(e_["v"])) or (v["error"] is None) != (int(e_["flag"]) > 0):
+            raise Mismatch("C19:parameter-of-input", f"fit parameter {e_['n']!r} of the input", [float(e_["v"]), "fixed" if int(e_["flag"]) > 0 else float(e_["e"])], v)
     if f17:
         m = Mismatch("C19:undeclared-sA_0", "sA_0 is defined by the file but declared as another symbol (sA__0) while the K-matrix lineshape uses sA_0")
         f = rec.match_known(m, case)
